@@ -62,8 +62,8 @@ func c18Has(xs []int, x int) bool {
 	return false
 }
 
-func c18CheckCycle(ctx *vfCtx, c c18CycleCase) {
-	s := c18NewState(ctx, "C18")
+// c18BuildCycle parses the room state and the cycle events and lays them out as two state sets.
+func c18BuildCycle(ctx *vfCtx, s *c18State, c c18CycleCase) (all, evs, setA, setB []PDU, ok bool) {
 	room := c18GetRoom(c.Version, "public", "join")
 	if room == nil || len(c.Events) == 0 {
 		ctx.Unjudged("generator: no room")
@@ -80,7 +80,6 @@ func c18CheckCycle(ctx *vfCtx, c c18CycleCase) {
 		return
 	}
 	id := func(i int) string { return fmt.Sprintf("$cyc%d:a.example", i) }
-	var evs []PDU
 	for i, ce := range c.Events {
 		role := map[string]string{"pl": "power_levels", "jr": "join_rules", "member": "member", "topic": "history_visibility"}[ce.Role]
 		e := c18Base(c.Version, room, role, i)
@@ -119,7 +118,7 @@ func c18CheckCycle(ctx *vfCtx, c c18CycleCase) {
 		ctx.Unjudged("no cycle event accepted")
 		return
 	}
-	all := append(append([]PDU{}, state...), evs...)
+	all = append(append([]PDU{}, state...), evs...)
 	if c18AuthCycle(s, all) {
 		ctx.Class("auth-cycle")
 		ctx.NonTrivial()
@@ -127,7 +126,7 @@ func c18CheckCycle(ctx *vfCtx, c c18CycleCase) {
 		ctx.Class("acyclic")
 	}
 	// two state sets: the room's state with the cycle events replacing their slots, split as drawn
-	setA, setB := append([]PDU{}, state...), append([]PDU{}, state...)
+	setA, setB = append([]PDU{}, state...), append([]PDU{}, state...)
 	for i, p := range evs {
 		sp := 2
 		if i < len(c.Split) {
@@ -142,6 +141,15 @@ func c18CheckCycle(ctx *vfCtx, c c18CycleCase) {
 		if sp == 1 || sp == 2 {
 			setB = c18Replace(s, setB, p)
 		}
+	}
+	return all, evs, setA, setB, true
+}
+
+func c18CheckCycle(ctx *vfCtx, c c18CycleCase) {
+	s := c18NewState(ctx, "C18")
+	all, evs, setA, setB, ok := c18BuildCycle(ctx, s, c)
+	if !ok {
+		return
 	}
 	q := c18Querier(0)
 	s.call("ResolveConflictsNew", func() {
